@@ -291,6 +291,7 @@ MCSnaps2     == {"a", "b"}
 MCGaters     == {"a", "b"}
 MCHoldSetsQ  == {{"a"}, {"b"}, {"a", "b"}}
 MCHoldSets   == {{"a"}, {"c"}, {"a", "c"}, {"b", "c"}}
+MCHoldSets3Q == {{"a"}, {"c"}, {"a", "c"}}
 MCTicksQ     == {1, 47, 49, 91 * 24}
 MCTicks      == {1, 24, 47, 49, 30 * 24, 89 * 24, 91 * 24, 96 * 24}
 MCSysDurs    == {24, Forever}
